@@ -58,6 +58,7 @@ func run(c *hlib.Ctx) {
 	}
 	for i := 0; i < n/2+1; i++ {
 		caseSTLAscii(c, i)
+		caseSTLRound(c, i)
 		caseCSV(c, i)
 		caseOFF(c, i)
 		caseOBJ(c, i)
